@@ -771,6 +771,8 @@ def _per_walk_state_reset(ctx):
     if not filled:
         raise AnalysisError(f"{AS_}:CtxAwareTransformer: no state filled during the walk found (the scope stack is expected)")
     for attr, (nm, site) in sorted(filled.items()):
+        if attr in ms:
+            continue  # a read-only property (a view of the scope stack): its state is the attribute it reads, judged there
         before = [n for n in rebound.get(attr, []) if all(cfg.dominated(w, lambda m, n=n: m is n) for w in walk)]
         ok = bool(before)
         ctx.ob("R12", f"{AS_}:CtxAwareTransformer.ctxvisit", f"`self.{attr}` (filled by {nm} during the walk) is re-bound before the walk starts", ok, key=f"ctxvisit|per-walk-state-not-reset|{attr}", where=loc(site), detail=None if ok else f"`{short(site, 50)}` in {nm} fills it; ctxvisit does not bind it afresh ahead of self.visit(..): what a walk that ended in an exception left in it answers for the next input")
